@@ -286,6 +286,14 @@ def find_kernel_cex(ck, pkg, kind, r, m, outs):
         for b in [R % m, 2, m - 1, rng.randrange(1, m)]:
             a = V % m * R % m * pow(b, -1, m) % m
             cands.append((a, b))
+    # conversions and other unary kernels: operands whose image under x -> x*R^e (e = -2..2) is tiny or sits at a word boundary, so that the
+    # value before the final conditional subtraction lies just above / below m or 2^256
+    c_ = R % m
+    small = [0, 1, 2, 3, c_ - 1, c_, c_ + 1, c_ + 2, 2 * c_, 2**32, 2**40, 2**62, 2**63, 2**64 - 1, 2**64, 2**64 + c_, 2**128, 2**192, m - 1, m - c_, m - c_ - 1]
+    for e_ in (-1, 1, -2, 2):
+        f_ = pow(R, e_, m)
+        for v in small:
+            cands.append((v % m * f_ % m, rng.randrange(1, m)))
     for t in range(40):
         cands.append((rand_operand(rng, m, t), rand_operand(rng, m, (t * 5 + 3) % 40)))
     for t in range(3000):
